@@ -104,10 +104,11 @@ def check_directional(ctx, R="C07.directional"):
     if len(comps) != 1 or len(comps[0].elts) != 3 or not all(isinstance(e, ast.Name) for e in comps[0].elts):
         raise AnalysisError("shape not recognised: offset components of directionalSpecHelper")
     dxyz = [e.id for e in comps[0].elts]
-    for n in walk_local(helper):
-        if isinstance(n, ast.Assign) and isinstance(n.value, ast.Lambda) and isinstance(n.targets[0], ast.Name):
-            conds = [(unparse(t), p) for t, p in lib.guard_tests(n, helper)]
-            lambdas[tuple(conds)] = n.value
+    # the value lambdas: the dict-valued lambdas written directly in the helper (bound to a local or passed on at once)
+    for n in ast.walk(helper):
+        if isinstance(n, ast.Lambda) and isinstance(n.body, ast.Dict) and lib.enclosing_function(n) is helper:
+            conds = [(unparse(t), p) for t, p in lib.guard_tests(lib.statement_of(n), helper)]
+            lambdas[tuple(conds)] = n
     if len(lambdas) != 3:
         raise AnalysisError("shape not recognised: the three value lambdas of directionalSpecHelper")
     for conds, lam in lambdas.items():
@@ -158,9 +159,13 @@ def check_directional(ctx, R="C07.directional"):
     mco = [f for f in ast.walk(helper) if isinstance(f, ast.FunctionDef) and f.name == "makeContactOffset"]
     if mco:
         f = mco[0]
-        rr = {tuple((unparse(t), p) for t, p in lib.path_conditions(r, f)): unparse(r.value) for r in lib.returns_of(f)}
         d_, ct = [a.arg for a in f.args.args]
-        if rr.get(((f"{d_} is None", True),)) == f"{ct} / 2" and rr.get(((f"{d_} is None", False),)) == "0":
+        rr = {}
+        for r in lib.returns_of(f):
+            cs = lib.guard_tests(r, f)
+            key = "none" if lib.holds(cs, f"{d_} is None") else "given" if lib.holds(cs, f"{d_} is not None") else unparse(r)
+            rr[key] = unparse(r.value) if key not in rr or rr[key] == unparse(r.value) else "<several>"
+        if rr == {"none": f"{ct} / 2", "given": "0"}:
             ctx.ok(R, f, "contact offset = contactTolerance/2 exactly when no distance is given")
         else:
             ctx.finding(R, f, "makeContactOffset", f"makeContactOffset is not `ct/2 if dist is None else 0` (found {rr})")
